@@ -39,7 +39,14 @@ func c17Gen(class string, seed uint64, tier string) *vfScenario {
 		sc.Cfg["mtoff"] = int64(rng.IntN(400) - 200) // days relative to now-6 months
 		sc.Cfg["jump"] = int64(rng.IntN(30))         // days the clock jumps before the second listing
 		sc.Cfg["perm"] = int64(rng.IntN(0o10000))
+		if rng.IntN(4) == 0 {
+			// modification times around and beyond 2^31 seconds (the wire field is an unsigned 32-bit count)
+			sc.Cfg["mtabs"] = []int64{1<<31 - 1, 1 << 31, 1<<31 + int64(rng.IntN(1<<30)), 1<<32 - 1}[rng.IntN(4)]
+		}
 	case "setstat":
+		if rng.IntN(3) == 0 {
+			sc.Cfg["late"] = 1 // times set by the requests straddle 2^31 seconds
+		}
 		n := 1 + rng.IntN(6)
 		for i := 0; i < n; i++ {
 			fl := int64(rng.IntN(16))
@@ -289,6 +296,9 @@ func c17Kinds(r *vfRun) {
 	os.Remove(v.root + "/f")
 	now := time.Now() // the bubble's fake clock
 	mt := now.AddDate(0, -6, 0).Add(time.Duration(sc.cfg("mtoff", 0)) * 24 * time.Hour)
+	if abs := sc.cfg("mtabs", 0); abs > 0 {
+		mt = time.Unix(abs, 0)
+	}
 	kinds := c17MakeKinds(v.root, os.FileMode(sc.cfg("perm", 0o644)), mt)
 	c := v.c
 	var mismatch, msig string
@@ -455,6 +465,9 @@ func c17Setstat(r *vfRun) {
 			return // truncating a directory fails before anything else is applied: not an attribute-selection question
 		}
 		fs := &FileStat{Size: uint64(op.Off), Mode: uint32(op.N) & 0o7777, UID: uint32(op.A>>16) & 0xffff, GID: uint32(op.A) & 0xffff, Atime: uint32(1600000000 + op.N), Mtime: uint32(1700000000 + op.N)}
+		if sc.cfg("late", 0) != 0 {
+			fs.Atime, fs.Mtime = uint32(1<<31-2048+op.N), uint32(1<<31-100+op.N)
+		}
 		var err error
 		if op.K == "setstat" {
 			err = c.setstat(op.P, fl, fs)
